@@ -280,6 +280,7 @@ def strat_ts(draw):
     return {"N": N, "nints": nints, "nbins": nbins, "seed": draw(st.integers(0, 2**31 - 1)),
             "ratio": draw(st.one_of(st.integers(2, 60).map(float), st.floats(2.0, 60.0, allow_nan=False))),
             "accel": draw(st.one_of(st.just(0.0), st.floats(1.0, 1e5), st.floats(-1e5, -1.0))),
+            "amp_exp": draw(st.sampled_from([0, 0, -20, 20, -40])),
             # further trial periods folded on the SAME TimeSeries object with the same cube shape (a period search)
             "more_ratios": draw(st.lists(st.one_of(st.integers(2, 60).map(float), st.floats(2.0, 60.0, allow_nan=False)), min_size=0, max_size=2))}
 
@@ -290,6 +291,7 @@ def check_ts(case, ctx):
 
     N = case["N"]
     x = np.random.default_rng(case["seed"]).integers(-500, 500, size=N).astype(np.float32)
+    x = (x * np.float32(2.0 ** case.get("amp_exp", 0))).astype(np.float32)  # the unit of the data is arbitrary (exact scaling)
     hdr = Header(filename="t.tim", data_type="time series", nchans=1, foff=-1.0, fch1=1400.0, nbits=32, tsamp=TSAMP,
                  tstart=55000.0, nsamples=N, dm=12.5)
     ts = TimeSeries(x, hdr)
